@@ -15,11 +15,11 @@ This property is meant to hold for the unmodified code:
 
 Your task: produce a small change to the library's non-test source (under rarena-allocator/src, not the tests) that BREAKS this property while
  (a) the project still compiles,
- (b) the existing test suite still passes completely: `cd {wd} && cargo test --workspace --no-fail-fast --offline` (68 tests, default features),
+ (b) the existing test suite still passes completely: `cd {wd} && cargo test --workspace --no-fail-fast --offline` (68 unit tests, default features; file-backed arenas additionally need `--features memmap`, you may use that feature in your demonstration via `cargo test -p rarena-allocator --features memmap --offline --test <name>`),
  (c) the change looks like a realistic programming slip (a refactoring mistake, a wrong variable of the same type, an off-by-one, a dropped or misplaced guard/step, an "optimisation"), not obvious sabotage, and is only a few lines.
 The breakage must need something specific in order to manifest - a multi-step sequence of operations, an unusual input or size/alignment combination, a particular arena state, or two cooperating sites that each look fine alone - NOT something that ordinary use would expose at once. {hint}
 
-Also write a demonstration: an integration test file `rarena-allocator/tests/demo_{pid.lower()}.rs` using only the public API (or, if the public API cannot observe it, a small unit test module added in a separate new file) that FAILS with your change applied and PASSES on the unmodified code. Check both directions yourself (e.g. `git stash` the library change, run the demo, `git stash pop`, run again) and also re-run the full existing suite with the change applied.
+Also write a demonstration: an integration test file `rarena-allocator/tests/demo_{pid.lower()}.rs` using only the public API (or, if the public API cannot observe it, a small unit test module added in a separate new file) that FAILS with your change applied and PASSES on the unmodified code. Check both directions yourself (save your change with `git diff > /tmp/p_$$.diff`, undo it with `git apply -R`, run the demo, re-apply with `git apply`, run again; NEVER use `git stash`: it is shared between worktrees and other agents work in sibling worktrees) and also re-run the full existing suite with the change applied.
 
 Deliver in {wd}/_out/ :
   - patch.diff : `git diff` of the library source change only (not the demo), relative to HEAD, applicable with `git apply` from the repository root;
